@@ -801,11 +801,13 @@ func (s *Server) readPQClientRequestHidden(hs *HandshakeState, b []byte) (int, e
 		rawLeaf, rawIntermediate, remoteEphemeralBytes []byte
 		c                                              *Certificate
 	)
-	bufCopy := make([]byte, len(b))
+	scratch := make([]byte, len(b))
+	var bufCopy []byte
 
 	for _, cert := range certList {
-		// Copy buffer for processing
-		copy(bufCopy, b)
+		// Copy buffer for processing; bufCopy is a fresh view of the whole copy for each certificate
+		copy(scratch, b)
+		bufCopy = scratch
 
 		// Recreate duplex at each VM loop
 		hs.duplex.InitializeEmpty()
